@@ -41,35 +41,39 @@ def must_parse(check, P):
     seen = {"ok": 0, "report": 0}
     # the parser itself is not of interest here
     I.intrinsics["PrintrunWriter._parse_message"] = lambda I_, fv, a, k, node: (I_.emit("CALL", node, func="PrintrunWriter._parse_message", args=tuple(a), kwargs={}), NONE)[1]
-    for path in I.explore(lambda I: None, lambda I, _: W.call_method(I, "pw", "_on_device_message", (msg,)), max_dev=None):
-        n += 1
-        starts = {k: v for k, v in path.facts.items() if k.startswith("startswith:")}
-        is_ok = any(v is True and "'ok'" in k for k, v in starts.items())
-        is_err = any(v is True and "'error'" in k for k, v in starts.items())
-        if is_err:
-            continue
-        parse = [i for i, e in enumerate(path.trace) if e.kind == "CALL" and e.data.get("func") == "PrintrunWriter._parse_message"]
-        acks = ext(path, "_ack_event.set")
-        d = [decisions_text(path)]
-        if is_ok:
-            seen["ok"] += 1
-            if not parse:
-                check.violation("R1", "ok-report-not-parsed", "a reply that starts with 'ok' returns from the receive callback without reaching the parser: "
-                                "'ok T:210.5 /210.0 B:60.1 /60.0' leaves T and B unset", d)
-            elif acks and parse[0] > acks[0][0]:
-                check.violation("R1", "ok-report-parsed-after-ack", "an 'ok ...' report is parsed after the acknowledgement is signalled: write() can return before the reading is stored", d)
-            else:
-                arg = path.trace[parse[0]].data["args"][-1]
-                if isinstance(arg, Str) and any(isinstance(p, Text) and p.name.startswith("arg.message") for p in arg.parts):
-                    check.ok("R1", "'ok ...' report parsed before the acknowledgement")
+    # constant reply lines: how a line is classified (prefix tests, regular expressions, ...) folds to a constant, so the
+    # rule does not depend on the way the classification is written
+    REPLIES = [("ok", "ok"), ("ok T:210.5 /210.0 B:60.1 /60.0 @:127", "ok"), ("OK T:1.0 /0.0", "ok"),
+               ("X:10.00 Y:2.00 Z:0.30 E:0.00 Count X:800", "report"), ("<Idle|MPos:1.000,-2.000,3.500|FS:500,8000>", "report"),
+               ("T:150.0 /210.0 B:60.0 /60.0", "report"), ("[PRB:1.000,2.000,-3.500:1]", "report"), ("E:-3.25 X:12.00 Y:22.00", "report")]
+    for line, kind in REPLIES:
+        for path in I.explore(lambda I: None, lambda I, _, line=line: W.call_method(I, "pw", "_on_device_message", (Const(line),)), max_dev=None, max_paths=200):
+            n += 1
+            if path.outcome != "return":
+                check.violation("R1", f"callback-raises:{path.value.cls}", f"the receive callback raises {path.value.cls} for the reply {line!r}", [decisions_text(path)])
+                continue
+            parse = [i for i, e in enumerate(path.trace) if e.kind == "CALL" and e.data.get("func") == "PrintrunWriter._parse_message"]
+            acks = ext(path, "_ack_event.set")
+            d = [f"reply {line!r}", decisions_text(path)]
+            if kind == "ok":
+                seen["ok"] += 1
+                if not parse:
+                    check.violation("R1", "ok-report-not-parsed", f"the reply {line!r} returns from the receive callback without reaching the parser: "
+                                    "'ok T:210.5 /210.0 B:60.1 /60.0' leaves T and B unset", d)
+                elif acks and parse[0] > acks[0][0]:
+                    check.violation("R1", "ok-report-parsed-after-ack", "an 'ok ...' report is parsed after the acknowledgement is signalled: write() can return before the reading is stored", d)
                 else:
-                    check.violation("R1", "ok-report-parses-other-text", f"the parser receives {arg!r}, not the message", d)
-        else:
-            seen["report"] += 1
-            if parse:
-                check.ok("R1", "unsolicited report parsed")
+                    arg = path.trace[parse[0]].data["args"][-1]
+                    if I.strval(arg) is not None and I.strval(arg).strip() == line.strip():
+                        check.ok("R1", f"{line!r}: parsed before the acknowledgement")
+                    else:
+                        check.violation("R1", "ok-report-parses-other-text", f"the parser receives {arg!r}, not the message {line!r}", d)
             else:
-                check.violation("R1", "report-not-parsed", "a report line (neither ok nor error) never reaches the parser", d)
+                seen["report"] += 1
+                if parse:
+                    check.ok("R1", f"{line!r}: unsolicited report parsed")
+                else:
+                    check.violation("R1", "report-not-parsed", f"the report line {line!r} (neither ok nor error) never reaches the parser", d)
     check.floor(seen["ok"] >= 1 and seen["report"] >= 1, f"C18.R1: callback paths seen: {seen}")
     return n
 
